@@ -103,6 +103,7 @@ def check_sweeps(ctx, X, mname, sweeps, K, explicit):
     """Oracle over the recorded sweep history.  Returns (n_acc, n_rej)."""
     ref = cc.ref_metric(mname)
     tol = cc.tol_for(X)
+    U = cc.unit(X) ** 2          # costs are squared distances
     acc = rej = 0
     for si, sw in enumerate(sweeps):
         ctx.count('sweeps_checked')
@@ -160,12 +161,12 @@ def check_sweeps(ctx, X, mname, sweeps, K, explicit):
             Dm = np.stack([ref(X, X[i]) for i in ci], axis=1)
             return cc.msq(Dm.min(axis=1))
         cin, cout = true_cost(sw['in_inds']), true_cost(sw['out_inds'])
-        if cout > cin + tol * (1 + cin):
+        if cout > cin + tol * (U + cin):
             ctx.violation('pam.cost-increased',
                           'sweep %d: mean squared distance %.12g -> %.12g' % (
                               si, cin, cout))
         rep = cc.msq(sw['out_dist'])
-        if abs(rep - cout) > 10 * tol * (1 + cout):
+        if abs(rep - cout) > 10 * tol * (U + cout):
             ctx.violation('pam.reported-cost-wrong',
                           'sweep %d: cost of reported distances %.12g, true '
                           'cost of reported centers %.12g' % (si, rep, cout))
@@ -237,7 +238,7 @@ def make_case(rng):
 
 
 def execute(X, mname, k, iters, form, seed, inds, props, rs=None):
-    m = cc.metric_arg(mname)
+    m = cc.metric_arg(mname, np.random.default_rng(seed))
     rs = seed if rs is None else rs
     if form == 'cold':
         return kmedoids.kmedoids(X, m, n_clusters=k, n_iters=iters,
@@ -296,6 +297,7 @@ def run_case(ctx, kind, rng, idx):
         return run_fresh(ctx, rng, idx, X, mname, k, iters, form, seed, inds,
                          props)
     tol = cc.tol_for(X)
+    U = cc.unit(X) ** 2          # costs are squared distances
     ctx.sweeps = []
     try:
         res = execute(X, mname, k, iters, form, seed, inds, props)
@@ -317,7 +319,7 @@ def run_case(ctx, kind, rng, idx):
         kc = kcenters.kcenters(X, cc.metric_arg(mname), n_clusters=k)
         c0 = cc.msq(kc.distances)
         ctx.count('hybrid_vs_kcenters')
-        if final_cost > c0 + tol * (1 + c0):
+        if final_cost > c0 + tol * (U + c0):
             ctx.violation('pam.hybrid-worse-than-kcenters',
                           'hybrid cost %.12g > k-centers cost %.12g' % (
                               final_cost, c0))
@@ -359,7 +361,7 @@ def run_case(ctx, kind, rng, idx):
         res4 = execute(X, mname, k, iters + 1, form, seed, inds, props)
         ctx.count('n_plus_one_pairs')
         c4 = cc.msq(res4.distances)
-        if c4 > final_cost + tol * (1 + final_cost):
+        if c4 > final_cost + tol * (U + final_cost):
             ctx.violation('pam.more-sweeps-worse',
                           '%d sweeps cost %.12g, %d sweeps cost %.12g' % (
                               iters, final_cost, iters + 1, c4))
@@ -395,8 +397,9 @@ def flat_result(res):
 def run_mpi_form(ctx, rng, idx, X, info, mname, k, iters, seed):
     """The (rank, index) route of k-hybrid / k-medoids on a one-rank world:
     function and estimator form.  Result-level guarantees only."""
-    m = cc.metric_arg(mname)
+    m = cc.metric_arg(mname, np.random.default_rng(seed))
     tol = cc.tol_for(X)
+    U = cc.unit(X) ** 2          # costs are squared distances
     est = bool(rng.random() < 0.5)
     tag = 'mpi1-est' if est else 'mpi1-fn'
     ctx.seen('forms', tag)
@@ -433,11 +436,11 @@ def run_mpi_form(ctx, rng, idx, X, info, mname, k, iters, seed):
     c0, c1, c2 = cc.msq(kc.distances), cc.msq(fr.distances), \
         cc.msq(fm.distances)
     ctx.count('hybrid_vs_kcenters')
-    if c1 > c0 + tol * (1 + c0):
+    if c1 > c0 + tol * (U + c0):
         ctx.violation('pam.hybrid-worse-than-kcenters',
                       '[%s] hybrid cost %.12g > k-centers cost %.12g' % (
                           tag, c1, c0))
-    if c2 > c1 + tol * (1 + c1):
+    if c2 > c1 + tol * (U + c1):
         ctx.violation('pam.more-sweeps-worse',
                       '[%s] %d sweeps cost %.12g, %d sweeps cost %.12g' % (
                           tag, iters, c1, iters + 1, c2))
